@@ -24,6 +24,9 @@ RecOK(r, hasPrev, prev) ==
          \* raw timestamps survive read / write / defragment bit-exactly; a single value (channel[i], array[i], a
          \* property) is handed out as the library's scalar timestamp (r.scalar = FALSE: a bare record came back)
          r.sec = r.sec_back /\ r.frac = r.frac_back /\ r.scalar
+    [] r.kind = "tracklen" ->
+         \* whatever the increment (decimal fractions included), the time axis has exactly one point per value
+         r.nrel = r.n /\ r.nabs = r.n
     [] r.kind = "track" ->
          \* time_track: n points, point i = (a + i*b)/den seconds after the start; values are exact small integers
          /\ Len(r.rel) = r.n /\ Len(r.abs) = r.n
